@@ -37,9 +37,13 @@ EXTRA_SIGNALS = EXIT_STATUSES + ["SIGRT+1", "SIGRT+5", "SIGRT+12", "SIGRT+29", "
 
 # ------------------------------------------------------------------ scenarios
 def sc(kind, how="SIGKILL", n_jobs=2, victims=(0,), managed=False, n_tasks=8, sleep=0.05, gen=False, big=0,
-       watchdog=60, n_tasks1=None):
+       watchdog=60, n_tasks1=None, sigchld=None):
     if kind == "mid_send":
         watchdog = 12          # the known finding F27 hangs: do not wait a minute for it
+    if sigchld:
+        d = sc(kind, how, n_jobs, victims, managed, n_tasks, sleep, gen, big, watchdog, n_tasks1)
+        d["sigchld"] = sigchld
+        return d
     if n_tasks1:
         return {"kind": kind, "how": how, "n_jobs": n_jobs, "victims": list(victims), "managed": managed,
                 "n_tasks": n_tasks, "sleep": sleep, "gen": gen, "big": big, "watchdog": watchdog, "n_tasks1": n_tasks1}
@@ -121,6 +125,15 @@ def quick_scenarios(rng):
         sc("submit_window", "exit:0", 2, [0]),
         sc("mid_task", "exit:255", 3, [2], managed=True),
         sc("idle_settled", "exit:1", 2, [1]),
+        # how the parent treats SIGCHLD: the dead worker's exit status cannot be collected (auto-reaped children /
+        # a thread that reaps every child) -- the manager must still fail the futures in bounded time
+        sc("mid_task", "SIGKILL", 2, [1], sigchld="ign"),
+        sc("mid_task", "exit:0", 3, [0], managed=True, sigchld="ign"),
+        sc("idle_settled", "SIGKILL", 2, [0], managed=True, sigchld="ign"),
+        sc("idle_settled", "exit:0", 3, [1], sigchld="ign"),
+        sc("mid_task", "SIGKILL", 3, [2], managed=True, sigchld="reaper"),
+        sc("mid_task", "exit:0", 2, [0], sigchld="reaper"),
+        sc("idle_settled", "SIGKILL", 2, [1], sigchld="reaper"),
         sc("respawn", "exit:0", 2, [0], n_tasks1=1),
         sc("respawn", "SIGKILL", 2, [0], n_tasks1=1),
         sc("respawn", "exit", 3, [0], managed=True, n_tasks1=1),
@@ -154,6 +167,7 @@ def random_scenarios(rng, n, allow_midsend=False):
             how = rng.choice(["SIGKILL", "SIGSEGV", "exit"] + EXTRA_SIGNALS)
         out.append(sc(kind, how, n_jobs, victims, managed=rng.random() < 0.5, n_tasks=n_tasks,
                       n_tasks1=(rng.choice([1, None]) if kind == "respawn" else None),
+                      sigchld=(rng.choice(["ign", "reaper"]) if rng.random() < 0.12 else None),
                       sleep=0.2 if kind == "after_send" else rng.choice([0.0, 0.02, 0.05]),
                       gen=rng.random() < 0.15, big=rng.choice([0, 0, 0, 200000])))
     return out
